@@ -1155,8 +1155,9 @@ def _netascii_reader_function(
             # whether the next byte is an LF. If so, we skip it, because we
             # already inserted that LF when we read the CR.
             if last_byte_was_cr:
-                start_index += 1
-                index += 1
+                if new_data[0] == _LF:
+                    start_index += 1
+                    index += 1
                 last_byte_was_cr = False
             while index < len(new_data):
                 if new_data[index] == _CR:
